@@ -114,6 +114,7 @@ Definition extras (c : jv) (model_out : jv) : list (str * str) :=
                          else s_ "fail:" ++ dec_of_N (hd 0 (filter (fun c => negb (N.eqb c 11)) cs))
                  end);
     (s_ "vC13", b2s (jv_eqb (view_C13 real) (view_C13 model)));
+    (s_ "oC13slots", b2s (slot_dynamic_ok (e_unres E) real));
     (* C07: no JSX node left, or a diagnostic was reported *)
     (s_ "oC07", b2s (jsx_free real || match rdiags with [] => false | _ => true end));
     (s_ "vC07", b2s (Bool.eqb (jsx_free real) (jsx_free model)));
